@@ -723,6 +723,10 @@ class Interp:
                     return None
         if isinstance(v, CallV) and v.callee.endswith("ObjectIdentifier::from_slice") and v.args:
             return self.concrete(v.args[0])
+        if isinstance(v, CallV) and v.callee.endswith(("::from_be_bytes", "::from_le_bytes")) and len(v.args) == 1:
+            bs = self.concrete(v.args[0])
+            if isinstance(bs, list) and all(isinstance(b, int) and 0 <= b < 256 for b in bs):
+                return int.from_bytes(bytes(bs), "big" if v.callee.endswith("from_be_bytes") else "little")
         if isinstance(v, CallV) and v.callee in ("std::convert::From::from", "std::convert::Into::into") and len(v.args) == 1:
             c = self.concrete(v.args[0])
             if isinstance(c, int) and not isinstance(c, bool):
@@ -1700,6 +1704,25 @@ class Interp:
             if f_ is False:
                 return none_
             return PhiV([(f_, some_), (Not(f_), none_)])
+        # `it.try_for_each(|x| f(x))`: Ok(()) exactly when f succeeds for every element (it stops at the first failure)
+        if last == "try_for_each" and len(args) == 2 and (isinstance(core(args[1]), ClosureV) or self._is_fnitem(args[1])):
+            cb_ = core(args[1])
+            src_ = args[0]
+            el_ = elem_of(src_)
+            base_ = src_
+            while isinstance(core(base_), IterMapV):
+                base_ = core(base_).src
+            self.ctx.append(("rep", base_, src_))
+            try:
+                r_ = self.call_closure(cb_, [el_]) if isinstance(cb_, ClosureV) else self.call_body(cb_.path, self.crate.bodies[cb_.path], [el_])
+            finally:
+                self.ctx.pop()
+            phi_ = self._try_success(r_, None)
+            a_ = atom("all", core(src_).r(), F.show(phi_))
+            self.atom_vals[a_[1]] = (phi_, el_, src_)
+            ok_ = StructV("std::result::Result", "Ok", {"0": UNIT})
+            err_ = StructV("std::result::Result", "Err", {"0": Sel(r_, "#Err.0")})
+            return PhiV([(a_, ok_), (Not(a_), err_)])
         # bool::then_some(x) / then(f): Some(..) exactly when the receiver holds
         if last in ("then_some", "then") and len(args) == 2 and (n.get("recv") or {}).get("ty", "").lstrip("&") == "bool":
             f_ = self.to_formula(args[0])
